@@ -755,6 +755,8 @@ fn case_c05(o: &mut Outcome, params: &BTreeMap<String, String>, sections: &[Vec<
     let file_reqs = read_state_file(&file)?;
     o.nontrivial = file_reqs.len() >= 3;
     o.tags.push(format!("file-entries:{}", (file_reqs.len() / 5) * 5));
+    let fsize = std::fs::metadata(&file).map(|m| m.len()).unwrap_or(0);
+    o.tags.push(format!("file-size:{}", if fsize > 200_000 { "over-one-read-buffer" } else { "under-one-read-buffer" }));
     // what the file holds must rebuild the configuration on an empty instance
     let (replayed, rejected) = replay(&ConfigState::new(), &file_reqs);
     if !rejected.is_empty() {
@@ -914,6 +916,14 @@ fn gen_case(family: &str, rng: &mut Rng, thorough: bool) -> Vec<String> {
     match family {
         "C05" => {
             ops.push(format!("set workers2 {}", rng.below(3)));
+            // now and then a state whose file is larger than load_state's 200 000-byte
+            // read buffer (many certificates), so that entries straddle the chunks
+            if rng.chance(1, 8) {
+                ops[1] = format!("set workers {}", rng.below(2));
+                for _ in 0..rng.range(50, 80) {
+                    ops.push(format!("addcert {} {}", rng.below(32), g_cert(rng)));
+                }
+            }
             for _ in 0..n {
                 let l = g.g_cmd(rng, &mut sh, 8);
                 if usable(&l) {
@@ -1020,7 +1030,9 @@ fn real_main(args: &Args) -> i32 {
     }
     if let Some(path) = &args.replay {
         let ops = read_replay_ops(path);
-        let o = judge(&ops);
+        // `./check --replay` hands the file to every run of the property: a case of
+        // the in-process State harness (no `set family` line) is not ours
+        let o = if ops.iter().any(|l| l.starts_with("set family ")) { judge(&ops) } else { Outcome::default() };
         let fails: Vec<Value> = o.oracle.iter().map(|(c, d)| json!({"kind": "oracle", "class": c, "detail": d, "case": -1, "ops": ops, "impl_out": o.out, "model_out": []})).collect();
         for (c, d) in &o.oracle {
             println!("FAIL oracle {c} {d}");
